@@ -323,6 +323,7 @@ pub fn do_go(e: &mut Engine, go: &str, plan: u64) -> Result<GoAnswer, String> {
     let extra = fence.iter().filter(|l| l.starts_with("bestmove")).count();
     Ok(GoAnswer { bestmove: Some(bm), infos, delay_ms: (t1 - t0).as_secs_f64() * 1000.0, extra_bestmoves: extra })
 }
+thread_local! { pub static PONDER_ON: std::cell::Cell<bool> = std::cell::Cell::new(false); }
 pub fn bestmove_token(line: &str) -> Option<&str> {
     let mut it = line.split(' ');
     if it.next() != Some("bestmove") {
@@ -337,7 +338,10 @@ fn well_formed_move(s: &str) -> bool {
 /// C03's predicate on one answer in position `p`; returns the move
 pub fn check_bestmove(line: &str, p: &Pos) -> Result<Move, String> {
     let tok = bestmove_token(line).ok_or_else(|| format!("malformed bestmove line {:?}", line))?;
-    if line.split(' ').count() != 2 || !well_formed_move(tok) {
+    // after `setoption name Ponder value true` the protocol allows `bestmove X ponder Y`
+    let parts: Vec<&str> = line.split(' ').collect();
+    let ponder_form = PONDER_ON.with(|x| x.get()) && parts.len() == 4 && parts[2] == "ponder" && well_formed_move(parts[3]);
+    if !(parts.len() == 2 || ponder_form) || !well_formed_move(tok) {
         return Err(format!("bestmove line {:?} is not `bestmove <from><to>[qrbn]`", line));
     }
     let m = parse_mv(tok).ok_or_else(|| format!("bestmove {:?} is not a move", tok))?;
@@ -960,6 +964,20 @@ pub struct TimedCase {
     pub terminal_hunt: Option<PlacementRecipe>,
     pub go: GoSpec,
     pub follow: PosSpec,
+    /// option lines sent after the handshake (followed by isready): 0-3 none, 4 Ponder on, 5 Hash 1,
+    /// 6 Hash 256, 7 Hash 1024, 8 Ponder on + Hash 64, 9 the `Clear Hash` button
+    pub options: u8,
+}
+pub fn option_lines(o: u8) -> Vec<String> {
+    match o % 10 {
+        4 => vec!["setoption name Ponder value true".into()],
+        5 => vec!["setoption name Hash value 1".into()],
+        6 => vec!["setoption name Hash value 256".into()],
+        7 => vec!["setoption name Hash value 1024".into()],
+        8 => vec!["setoption name Ponder value true".into(), "setoption name Hash value 64".into()],
+        9 => vec!["setoption name Clear Hash".into()],
+        _ => vec![],
+    }
 }
 fn timed_position(c: &TimedCase) -> Option<(String, Pos)> {
     if let Some(r) = &c.terminal_hunt {
@@ -994,15 +1012,34 @@ fn timed_position(c: &TimedCase) -> Option<(String, Pos)> {
     position_text(&c.pos)
 }
 fn timed_strategy(max_slice: u16) -> impl Strategy<Value = TimedCase> {
-    (pos_spec_strategy(), prop_oneof![1 => Just(None), 2 => placement_near_mate().prop_map(Some)], go_spec_strategy(max_slice), pos_spec_strategy()).prop_map(|(pos, terminal_hunt, go, follow)| TimedCase { pos, terminal_hunt, go, follow })
+    (pos_spec_strategy(), prop_oneof![1 => Just(None), 2 => placement_near_mate().prop_map(Some)], go_spec_strategy(max_slice), pos_spec_strategy(), 0u8..10).prop_map(|(pos, terminal_hunt, go, follow, options)| TimedCase { pos, terminal_hunt, go, follow, options })
 }
 fn is_null_move(tok: &str) -> bool {
     tok == "0000" || tok == "(none)"
 }
 /// one measurement: Ok(delay) or Err(hard failure that is not about latency)
+thread_local! { static C08_OPTIONS: std::cell::Cell<u8> = std::cell::Cell::new(0); }
+/// one measurement: Ok(worst delay in excess of its plan over the gos of the session, as delay of the
+/// first go + excess of the follow-up) or Err(hard failure that is not about latency)
 fn c08_once(ptext: &str, p: &Pos, go: &str, plan: u64, follow: Option<&(String, Pos)>, st: &mut Stats) -> Result<f64, String> {
     let mut e = Engine::spawn()?;
     e.handshake()?;
+    let opts = option_lines(C08_OPTIONS.with(|x| x.get()));
+    if !opts.is_empty() {
+        for o in &opts {
+            e.send(o);
+        }
+        // an engine may need a while to act on an option (allocating a table): that is what isready is for
+        e.isready(Duration::from_secs(20)).map_err(|m| format!("after {:?}: {}", opts, m))?;
+        st.label("session_with_option_lines");
+    }
+    PONDER_ON.with(|x| x.set(opts.iter().any(|o| o.contains("Ponder"))));
+    let r = c08_session_body(&mut e, ptext, p, go, plan, follow, st).map_err(|m| if opts.is_empty() { m } else { format!("{} [after {:?}]", m, opts) });
+    PONDER_ON.with(|x| x.set(false));
+    r
+}
+fn c08_session_body(e: &mut Engine, ptext: &str, p: &Pos, go: &str, plan: u64, follow: Option<&(String, Pos)>, st: &mut Stats) -> Result<f64, String> {
+    let mut e = e;
     e.send(ptext);
     let ans = do_go(&mut e, go, plan).map_err(|m| format!("{} [{}]", m, ptext))?;
     let line = ans.bestmove.clone().unwrap();
@@ -1020,19 +1057,22 @@ fn c08_once(ptext: &str, p: &Pos, go: &str, plan: u64, follow: Option<&(String, 
     }
     // still responsive and serving
     e.isready(Duration::from_secs(1)).map_err(|m| format!("after answering `{}` in [{}]: {}", go, ptext, m))?;
+    let mut follow_excess = 0.0f64;
     if let Some((ft, fp_)) = follow {
         if !fp_.legal_moves().is_empty() {
             e.send(ft);
             let a2 = do_go(&mut e, "go", 0).map_err(|m| format!("follow-up after [{} ; {}]: {}", ptext, go, m))?;
             check_bestmove(&a2.bestmove.unwrap(), fp_).map_err(|m| format!("follow-up `{}` + go after [{} ; {}]: {}", ft, ptext, go, m))?;
             st.label("follow_up_served");
+            // the follow-up `go` has a zero allowance: whatever it takes counts against the same bound
+            follow_excess = a2.delay_ms;
         }
     }
     e.send("quit");
     if e.wait_exit(Duration::from_secs(2)).is_none() {
         return Err(format!("`quit` did not end the process within 2 s [{} ; {}]", ptext, go));
     }
-    Ok(ans.delay_ms)
+    Ok(ans.delay_ms.max(plan as f64 + follow_excess))
 }
 /// latency verdict with re-measurement: only three misses in a row (the last two measured serially)
 /// make a violation
@@ -1054,17 +1094,31 @@ fn latency_rule(first: f64, plan: u64, lower_too: bool, remeasure: impl Fn() -> 
     Err(format!("measured go->bestmove delays {:.1} / {:.1} / {:.1} ms against a planned slice of {} ms (allowed: {}{} ms .. {} ms)", first, second, third, plan, if lower_too { "" } else { "no lower bound, " }, plan.saturating_sub(EARLY_MS), plan + DELTA_MS))
 }
 
+/// the go command of a C08 case: on finished games half of the cases carry clocks that plan a slice
+/// of seconds (the answer must come at once anyway, and must not cost the NEXT go anything)
+fn c08_go_text(c: &TimedCase, p: &Pos) -> String {
+    let white = p.stm == Color::White;
+    if p.legal_moves().is_empty() && c.options % 2 == 0 {
+        let clock = 30_100 + (c.go.slice_ms as u64 % 7) * 10_000;
+        return format!("go wtime {} btime {}", clock, clock);
+    }
+    go_text(&c.go, white)
+}
 pub fn c08_case(c: &TimedCase, st: &mut Stats) -> CaseResult {
     let Some((ptext, p)) = timed_position(c) else { return Ok(()) };
     let white = p.stm == Color::White;
-    let go = go_text(&c.go, white);
+    let terminal = p.legal_moves().is_empty();
+    let go = c08_go_text(c, &p);
     let plan = plan_ms(&go, white);
     let follow = position_text(&c.follow);
     st.eval();
-    let terminal = p.legal_moves().is_empty();
     if terminal {
         st.label(if p.in_check(p.stm) { "terminal_checkmate" } else { "terminal_stalemate" });
+        if plan >= 1000 {
+            st.label("terminal_with_a_slice_of_seconds");
+        }
     }
+    C08_OPTIONS.with(|x| x.set(c.options));
     // a third of the cases run with the engine pinned to one core (both threads share a CPU)
     let pin = fp(&(&ptext, &go)) % 3 == 0;
     PIN_ONE_CORE.with(|x| x.set(pin));
@@ -1074,7 +1128,7 @@ pub fn c08_case(c: &TimedCase, st: &mut Stats) -> CaseResult {
     if pin && taskset_available() {
         st.label("engine_pinned_to_one_core");
     }
-    latency_rule(d, plan, false, || c08_once(&ptext, &p, &go, plan, None, &mut Stats::new())).map_err(|m| format!("{} [{} ; {}]", m, ptext, go))?;
+    latency_rule(d, plan, false, || c08_once(&ptext, &p, &go, plan, follow.as_ref(), &mut Stats::new())).map_err(|m| format!("{} [{} ; {} ; then {:?} + go]", m, ptext, go, follow.as_ref().map(|f| &f.0)))?;
     if terminal || plan > 0 {
         st.nontrivial(fp(&(&ptext, &go)));
     }
@@ -1087,7 +1141,7 @@ pub fn c08_case(c: &TimedCase, st: &mut Stats) -> CaseResult {
 }
 fn timed_json(c: &TimedCase) -> Value {
     match timed_position(c) {
-        Some((t, p)) => json!({"position": t, "go": go_text(&c.go, p.stm == Color::White), "follow": position_text(&c.follow).map(|x| x.0)}),
+        Some((t, p)) => json!({"position": t, "go": c08_go_text(c, &p), "follow": position_text(&c.follow).map(|x| x.0), "options": c.options}),
         None => json!({"position": null}),
     }
 }
@@ -1245,6 +1299,7 @@ pub fn c08_swarm_case(c: &SwarmCase, st: &mut Stats) -> CaseResult {
         st.label("side_to_move_in_check");
     }
     st.label(if c.lattice.is_some() { "balanced_lattice" } else { "random_swarm" });
+    C08_OPTIONS.with(|x| x.set(0));
     let d = c08_once(&ptext, &p, &go, plan, None, st)?;
     latency_rule(d, plan, false, || c08_once(&ptext, &p, &go, plan, None, &mut Stats::new())).map_err(|m| format!("{} [{} ; {}]", m, ptext, go))?;
     if heavy >= 8 {
@@ -1276,8 +1331,9 @@ pub fn replay_c08(case: &Value) -> CaseResult {
     let p = position_from_text(ptext)?;
     let plan = plan_ms(go, p.stm == Color::White);
     let follow = case.get("follow").and_then(|x| x.as_str()).and_then(|f| position_from_text(f).ok().map(|q| (f.to_string(), q)));
+    C08_OPTIONS.with(|x| x.set(case.get("options").and_then(|x| x.as_u64()).unwrap_or(0) as u8));
     let d = c08_once(ptext, &p, go, plan, follow.as_ref(), &mut Stats::new())?;
-    latency_rule(d, plan, false, || c08_once(ptext, &p, go, plan, None, &mut Stats::new()))
+    latency_rule(d, plan, false, || c08_once(ptext, &p, go, plan, follow.as_ref(), &mut Stats::new()))
 }
 
 /// C09 timed part: sessions of 1-3 go commands (later ones may omit fields the earlier ones gave);
